@@ -79,6 +79,7 @@ type BaseStore struct {
 	muJoining sync.Mutex
 	muWrite   sync.Mutex
 	muStatus  sync.Mutex
+	muRebuild sync.Mutex // serialises the rebuilds of the index, see updateIndex
 	sortFn    ipfslog.SortFn
 	logger    *zap.Logger
 	tracer    trace.Tracer
@@ -1023,6 +1024,14 @@ func (b *BaseStore) recalculateReplicationStatus(maxTotal int) {
 func (b *BaseStore) updateIndex(ctx context.Context) error {
 	_, span := b.tracer.Start(ctx, "update-index")
 	defer span.End()
+
+	// an index reads the whole log and then applies what it has read, and it is rebuilt
+	// by local writes (under muWrite), by the merge of replicated entries and by loads
+	// (under muJoining or no lock at all): without mutual exclusion a rebuild that read
+	// the log earlier could be applied after one that read it later, and the index
+	// would go back to a state that lacks entries already announced to subscribers
+	b.muRebuild.Lock()
+	defer b.muRebuild.Unlock()
 
 	if err := b.Index().UpdateIndex(b.OpLog(), []ipfslog.Entry{}); err != nil {
 		return fmt.Errorf("unable to update index: %w", err)
